@@ -304,7 +304,13 @@ func runC20(c *ctx) {
 		sum := sha256.Sum224(data)
 		want := "sha224-" + hex.EncodeToString(sum[:])
 		h1 := sha1.Sum(data)
-		r1 := blob.RefFromHash(func() interface{ Sum([]byte) []byte; Write([]byte) (int, error); Reset(); Size() int; BlockSize() int } { h := sha1.New(); h.Write(data); return h }())
+		r1 := blob.RefFromHash(func() interface {
+			Sum([]byte) []byte
+			Write([]byte) (int, error)
+			Reset()
+			Size() int
+			BlockSize() int
+		} { h := sha1.New(); h.Write(data); return h }())
 		idx := c.addCase(fmt.Sprintf("CMinus %s %s", qs(r.String()), qs(r.StringMinusOne())),
 			map[string]any{"op": "reffrombytes", "len": n}, true)
 		c.rep.SpecChecks++
